@@ -2,6 +2,7 @@
 from __future__ import annotations
 
 import calendar
+import math
 import datetime as D
 import warnings
 
@@ -164,7 +165,8 @@ class LocalTimeRandom(Sub):
     def strategy(self, ctx):
         return st.fixed_dictionaries({"t": st.one_of(S.uni(LO, HI), S.uni(-10**10, 10**10)),
                                       "off": st.one_of(st.sampled_from([0, -86399, 86399, 3600, -3600, 19800]), st.integers(-86399, 86399)),
-                                      "us": st.sampled_from([0, 1, 999999]) | st.integers(0, 999999)})
+                                      "us": st.sampled_from([0, 1, 999999]) | st.integers(0, 999999),
+                                      "frac": st.sampled_from([0.5, 0.25, 0.75, 0.001, 0.999]) | st.floats(0, 0.9999, allow_nan=False)})
 
     def check(self, case, ctx):
         t, off, us = case["t"], case["off"], case["us"]
@@ -172,6 +174,13 @@ class LocalTimeRandom(Sub):
         g1 = tuple(PY.local_time(float(t), off, us))
         g2 = tuple(RS.local_time(float(t), off, us))
         req(g1 == g2 == tuple(PY.local_time(t, off, us)), "float timestamp handled differently from the equal int", got=[g1, g2])
+        # a fractional timestamp (what from_format's X / x tokens pass) denotes the second it lies in: floor, also below zero
+        tf = float(t) + case.get("frac", 0.5)
+        e = EP + D.timedelta(seconds=math.floor(tf) + off)
+        exp = (e.year, e.month, e.day, e.hour, e.minute, e.second, us)
+        for nm, m in (("python", PY), ("rust", RS)):
+            g = tuple(m.local_time(tf, off, us))
+            req(g == exp, f"{nm} local_time({tf!r}, {off}, {us}) is not the broken-down time of the second containing it", got=g, expected=exp)
         return t < 0 or (t // 86400 != (t + off) // 86400), "neg" if t < 0 else "pos"
 
 
@@ -209,4 +218,62 @@ class AwareGetters(Sub):
         return len(dates) > 1, "dates-differ" if len(dates) > 1 else "same-date"
 
 
-SUBS = [Years(), Dates(), LocalTimeBoundaries(), LocalTimeRandom(), AwareGetters()]
+def _skipped_first_midnights():
+    """(zone, year, month) of every month whose first wall-clock midnight does not exist in the zone (all zones of the tz database)."""
+    import zoneinfo
+    out = []
+    for z in sorted(zoneinfo.available_timezones()):
+        try:
+            tr = T.transitions(z)
+        except Exception:
+            continue
+        for t, a, b in tr:
+            if b > a:
+                w = EP + D.timedelta(seconds=t + a)
+                if (w.day, w.hour, w.minute, w.second) == (1, 0, 0, 0) and 2 <= w.year <= 9998:
+                    out.append((z, w.year, w.month))
+    return out
+
+
+class GettersSkippedMidnight(Sub):
+    name = "getters_month_without_first_midnight"
+    kind = "enum"
+    backends = ("rust", "py")
+    n = {"quick": 0, "thorough": 0}
+    shards = {"quick": 4, "thorough": 8}
+    distinct_by_construction = True
+    rule = ("every month of every zone whose first midnight is skipped x days {1, 2, 8, 15, last} at noon x value obtained by instance() (fold 0), by the constructor "
+            "(fold 1) and by conversion from UTC: the getters describe the value's own local date (the getters must not depend on aware arithmetic landing on the "
+            "1st); all cases non-trivial")
+
+    def exhaustive(self, tier):
+        return True
+
+    def cases(self, ctx, shard, nshards):
+        for i, (z, y, m) in enumerate(_skipped_first_midnights()):
+            if i % nshards == shard:
+                yield {"zone": z, "y": y, "m": m}
+
+    def check(self, case, ctx):
+        z, y, m = case["zone"], case["y"], case["m"]
+        last = calendar.monthrange(y, m)[1]
+        n = 0
+        for day in (1, 2, 8, 15, last):
+            d = D.date(y, m, day)
+            exp = {"day_of_week": d.weekday(), "day_of_year": d.timetuple().tm_yday, "week_of_year": d.isocalendar()[1], "days_in_month": last,
+                   "quarter": (m - 1) // 3 + 1, "week_of_month": next(i for i, row in enumerate(calendar.monthcalendar(y, m), 1) if day in row)}
+            native = D.datetime(y, m, day, 12, tzinfo=T.zi(z))
+            vals = {"instance": pendulum.instance(native), "constructor": pendulum.datetime(y, m, day, 12, tz=z),
+                    "converted": pendulum.instance(native.astimezone(D.timezone.utc)).in_timezone(z)}
+            for prov, p in vals.items():
+                req((p.year, p.month, p.day) == (y, m, day), "harness: value is not on the intended local date", got=p.isoformat())
+                for k, v in exp.items():
+                    n += 1
+                    req(int(getattr(p, k)) == v, f"DateTime.{k} does not describe the value's own local date", value=p.isoformat(), provenance=prov, fold=p.fold,
+                        got=int(getattr(p, k)), expected=v)
+        ctx.cache["n"] = ctx.cache.get("n", 0) + n
+        ctx.cache["evidence_extra"] = {"inner_evaluations": ctx.cache["n"], "inner_nontrivial": ctx.cache["n"]}
+        return True, "month-without-first-midnight"
+
+
+SUBS = [Years(), Dates(), LocalTimeBoundaries(), LocalTimeRandom(), AwareGetters(), GettersSkippedMidnight()]
